@@ -159,6 +159,16 @@ CHECKS = {
     design_ref="DESIGN.md section 4 / C16",
     technique="Coq proof that translation commutes with evaluation over a hand-written model of the builder + structural/value correspondence + cross-entry-point oracle on the implementation",
     note=TB + " PipeRunner/RoocSolver/solve_with are compared, not modelled."),
+ "C18": dict(
+    category="proof",
+    text="PARTIAL (runtime property). Proved in Coq (axiom-free) on the models tied to the code by the other checks: bound propagation stops after at most max_steps constraint visits and the tableau simplex after at most `limit` pivots - "
+         "the fuel of the models is never what stops them; integer arithmetic on constants is checked: every integer result of every operator lies inside i64 / u64 for all operands, and the former panic/wrap cases (negating the smallest integer, "
+         "negating a huge positive integer) are Overflow errors. The property itself is evaluated on the implementation under catch_unwind and a process-level watchdog: repository programs, fixed adversarial inputs, thousands of mutated programs, "
+         "grammar-derived programs and raw noise go through parse, error rendering, format (+ re-parse), type_check, transform, Display, linearize, LP export, standardise and solve; parsing time is measured at nesting depths 8..128 for every recursive construct. "
+         "Three genuine defects repaired: exponential parsing time in the nesting depth of parentheses (64 levels never finished), a huge range aborting the process, a panic on negating the smallest integer.",
+    design_ref="DESIGN.md section 4 / C18",
+    technique="Coq theorems on loop step counters and checked arithmetic + watchdogged robustness run of every public stage on adversarial inputs",
+    note="Trusted: Coq kernel; harness watchdog. Panics, stack depth, memory and time are runtime behaviour outside any model; solve is exercised on bounded models only (microlp hang F18 is recorded under C05)."),
  "C19": dict(
     category="proof",
     text="PARTIAL proof. Proved in Coq (axiom-free) for constant expressions of any size over literals, named constants and every binary/unary operator - what the compiler evaluates at transform time (indexes, bounds, arguments, `let` constants): "
